@@ -8,7 +8,7 @@ import EPV.Model.CalendarLex
 namespace EPV.Lex
 
 /-- the `tzinfo` group of `DateTime.pattern` matched the empty string (the text after the seconds is empty) -/
-def stampTzAbsent (s : Str) : Bool :=
+def stampTzAbsent (s : List Char) : Bool :=
   match Cal.parseDateBody (Cal.pyStripAll s) with
   | some (_, _, _, _, 'T' :: rest) =>
     match Cal.parseTimeBody rest with
@@ -20,7 +20,7 @@ def stampTzAbsent (s : Str) : Bool :=
 timezone does not match, `fromstring` raises `ValueError` before anything is computed — then `DateTime.fromstring` /
 `DateTime.__init__` (the check `if self.tzinfo is None: raise ValueError` of `DateTimeStamp.__init__` cannot fire on
 this path).  The class exists for XSD 1.1 only. -/
-def dateTimeStampOfLex (s : Str) : Except Cal.Err Cal.DT :=
+def dateTimeStampOfLex (s : List Char) : Except Cal.Err Cal.DT :=
   if stampTzAbsent s then .error .value else Cal.dateTimeOfLex true s
 
 end EPV.Lex
